@@ -18,8 +18,9 @@ RULE = ("files of 0-6 lines (frames, blank lines anywhere incl. first/last, CRLF
         "reply scripts for files of <= 5 lines; non-trivial = refusal at a non-first, non-last line or blank lines present")
 LEVEL_NOTE = ("proof (partial): for all files and reply scripts the model of send_message writes ENQ, the stripped non-blank "
               "lines while ACKed, one EOT iff all ACKed, stop-and-wait; stream I/O (asyncio streams, TCP) is scripted")
-ASSUMPTIONS = ["reader.read(100) returns one whole reply per call (scripted); asyncio.open_connection is replaced by a double"]
-REPLIES = [b"\x06", b"\x15", b"\x04", b"garbage", b"\x06\x06", b""]
+ASSUMPTIONS = ["each reply arrives as one chunk of at most 100 bytes; the scripted reader is a byte stream (a read shorter than the chunk "
+               "leaves the rest buffered); asyncio.open_connection is replaced by a double"]
+REPLIES = [b"\x06", b"\x15", b"\x04", b"garbage", b"\x06\x06", b"", b"\x06\x15", b"\x06garbage", b"\x15\x06"]
 
 
 class ScriptedPeer(object):
@@ -40,10 +41,17 @@ class ScriptedPeer(object):
 
     # reader side
     async def read(self, n):
-        i = self.n
-        self.n += 1
-        self.log.append(("R", i))
-        return self.replies[i] if i < len(self.replies) else b""
+        """a byte stream like asyncio.StreamReader: at most n bytes of what has arrived; what is not taken stays
+        buffered for the next read; the i-th reply chunk arrives when the buffer is empty"""
+        if not getattr(self, "buf", b""):
+            i = self.n
+            self.n += 1
+            self.log.append(("R", i))
+            self.buf = self.replies[i] if i < len(self.replies) else b""
+        else:
+            self.log.append(("r",))          # served from bytes left over by an earlier, shorter read
+        out, self.buf = self.buf[:n], self.buf[n:]
+        return out
 
 
 def run_sim(lines, replies):
@@ -63,7 +71,8 @@ def run_sim(lines, replies):
             raised = type(e).__name__
     finally:
         simulator.asyncio.open_connection = orig
-    trace = " ".join(("W" + hexb(e[1])) if e[0] == "W" else ("R%d" % e[1]) for e in peer.log if e[0] in "WR")
+    trace = " ".join(("W" + hexb(e[1])) if e[0] == "W" else ("R%d" % e[1] if e[0] == "R" else "r")
+                     for e in peer.log if e[0] in "WRr")
     return trace, raised
 
 
@@ -78,7 +87,7 @@ def oracle(lines, replies, trace):
     for i, e in enumerate(evs):
         if e.startswith("W"):
             last = i == len(evs) - 1
-            if not last and not evs[i + 1].startswith("R"):
+            if not last and not evs[i + 1].startswith("R"):   # "r" = answered from left-over bytes, not by a new reply
                 return "stop-and-wait", "a unit is sent before the reply to the previous one arrived"
             if last and e != "W04":
                 return "stop-and-wait", "the last write is not followed by a read and is not EOT"
